@@ -99,7 +99,9 @@ class P:
             return {"env": str(1000 + 3 * i), "file": str(1001 + 3 * i), "cli": str(1002 + 3 * i)}, None
         if i % 3 == 2:
             # values that look like other things the option code handles: flag names, booleans, numbers, key=value
-            tricky = ["config", "verbose", "ipfix-port", "true", "false", "0", "10", "a=b", "x y", "VFLOW_IPFIX_PORT", "vflow.conf"]
+            # ... and values with characters that mean something to a shell or a template engine: they are plain text here
+            tricky = ["config", "verbose", "ipfix-port", "true", "false", "0", "10", "a=b", "x y", "VFLOW_IPFIX_PORT", "vflow.conf",
+                      "flows$prod", "nf9.${site}.raw", "$VFLOW_IPFIX_TOPIC.v2", "100%", "~/x", "a#b", "{{.Name}}", "$HOME/t"]
             return {"env": tricky[i % len(tricky)], "file": tricky[(i + 3) % len(tricky)], "cli": tricky[(i + 5) % len(tricky)]}, None
         return {"env": "env-%d" % i, "file": "file value %d" % i, "cli": "cli:%d" % i}, None
 
